@@ -11,6 +11,10 @@ CHECKS = {
          "bounded-exhaustive enumeration of atom sequences, edit balls and nesting templates on the real lexers/parsers with invariant oracles",
          "Every atom sequence up to the per-language bound, every single-edit neighbour and truncation of ~300 seed constructs, and ~90 nesting templates at depths up to 10^6 (child processes with a bounded stack) are driven through every entry point and configuration past the first error to the repeating terminal report and three calls beyond; invariants: no panic/fatal, offset in [0,len], call count linear, end report sticky, every slice handed out lies inside the input. Exhaustive within the stated bounds on the real code.",
          "Bounds per alphabet in evidence; 'terminal report' = the next call repeats token, Err() text and offset; stack exhaustion decided by running depth 10^6 inside a 64 MB stack (bounded recursion needs <4 MB, unbounded >100 MB)."),
+ "C02": ("exploration",
+         "bounded-exhaustive enumeration of atom sequences and edit balls on the real lexers with tiling/aliasing/re-lex oracles after every Next",
+         "For every enumerated input and every token position: the token is input[offset-len:offset] by pointer identity and equals a pristine copy modulo the two documented rewrites; tokens strictly ordered, non-overlapping, non-empty; css/js tokens tile the consumed bytes; html/xml gaps are whitespace before a tag closer; Text/AttrKey/AttrVal lie inside the token; append(token) cannot write into the input; each css/js token re-lexes to itself; the set of bytes altered in place is exactly the documented one. Exhaustive within the bounds.",
+         "Bounds per alphabet in evidence (css 4 atoms full alphabet, html/js 3-4, xml 4; one more in thorough); JS restricted to valid UTF-8 as the property says; template middle/tail re-lexed after the prefix `${."),
  "C12": ("model_checking",
          "explicit-state search to a fix-point over the real cursor objects in lock-step with a reference cursor",
          "All reachable (start,pos) states of parse.Input and buffer.Lexer are enumerated (BFS to a fix-point, successor = fresh object + shortest history + one operation) for every byte string up to the bound over an alphabet holding every truncated UTF-8 shape, for 11 constructors incl. failing readers; every observer and mutator result is compared with a reference cursor, the caller's array is compared before/after Restore. Exhaustive within the bound; nothing is sampled.",
